@@ -58,7 +58,7 @@ func resultJSON(id interface{}, r engine.Result) map[string]interface{} {
 	for i, rec := range r.Records {
 		rows[i] = map[string]interface{}{"v": vals.FromValues(rec.Values), "r": rec.Retraction}
 	}
-	return map[string]interface{}{"id": id, "stage": r.Stage, "err": r.Err, "fields": fields, "rows": rows}
+	return map[string]interface{}{"id": id, "stage": r.Stage, "err": r.Err, "fields": fields, "rows": rows, "schema_diff": r.SchemaDiff}
 }
 
 var _ = octosql.Null
